@@ -367,7 +367,7 @@ def merge_render_with_git(b, l, r, strategy=None):
 
     # Remove trailing newline if ">>>>>>> remote" is the last line
     lines = merged.splitlines(True)
-    if "\n" in lines[-1] and (">"*7) in lines[-1]:
+    if lines and "\n" in lines[-1] and (">"*7) in lines[-1]:
         merged = merged.rstrip()
     return merged, status
 
@@ -396,12 +396,20 @@ def merge_render_with_diff3(b, l, r, strategy=None):
 def merge_render(b, l, r, strategy=None, config=DefaultConfig):
     if strategy == "use-base":
         return b, 0
+    # The external tools refuse some texts (e.g. with a NUL character, which
+    # they take for binary data) and then print nothing: fall back on the
+    # builtin renderer rather than returning an empty merge result.
     if config.use_git and which('git'):
-        return merge_render_with_git(b, l, r, strategy)
+        merged, status = merge_render_with_git(b, l, r, strategy)
+        # git merge-file exits with the number of conflicts, at most 127
+        if 0 <= status < 128:
+            return merged, status
     elif config.use_diff and which('diff3'):
-        return merge_render_with_diff3(b, l, r, strategy)
-    else:
-        return builtin_merge_render(b, l, r, strategy)
+        merged, status = merge_render_with_diff3(b, l, r, strategy)
+        # diff3 exits with 0 (merged), 1 (conflicts) or 2 (trouble)
+        if 0 <= status < 2:
+            return merged, status
+    return builtin_merge_render(b, l, r, strategy)
 
 
 def file_timestamp(filename):
